@@ -511,6 +511,11 @@ def reverse_bytes(ex, o):
     if isinstance(b, bytes):
         return b[::-1]
     n = conc_int(z3.Length(b.t))
+    if n is None and not ex.quant:
+        for k in (2, 4, 16, 1, 6, 8):  # common fixed widths (UUIDs, addresses, integers) known from the path condition
+            if ex.proves(z3.Length(b.t) == k):
+                n = k
+                break
     if n is not None and n <= 512:
         if n == 0:
             return b''
